@@ -280,7 +280,7 @@ def ascii_lower(b):
 
 def source_literals():
     try:
-        src = open("/repo/clap_builder/src/util/str_to_bool.rs", encoding="utf-8").read()
+        src = open(os.environ.get("VERIF_REPO", "/repo") + "/clap_builder/src/util/str_to_bool.rs", encoding="utf-8").read()
     except OSError:
         return [], []
     out = []
